@@ -410,13 +410,34 @@ func validateLayout(dir string, ignore map[string]bool) (bool, [][2]string) {
 
 // ---------- tar of a layout directory ----------
 
-func writeTar(dir, out string) error {
+// writeTar archives the layout directory in one of several styles a tar of an image layout
+// comes in (internal/fs/tarfs must give the same view for all of them):
+//
+//	0 plain names, format chosen by archive/tar (USTAR; PAX for the long sha512 names)
+//	1 "./"-prefixed names with directory entries (tar -C dir .)
+//	2 PAX forced for every entry, no directory entries
+//	3 GNU format (long names through ././@LongLink)
+//	4 like 0, preceded by stale copies of index.json and oci-layout (appended archives: the last entry wins)
+//	5 like 1 with "//" and "/./" inside names (path.Clean)
+func writeTar(dir, out string, style int) error {
 	f, err := os.Create(out)
 	if err != nil {
 		return err
 	}
 	defer f.Close()
 	tw := tar.NewWriter(f)
+	run.Count(fmt.Sprintf("tar:style%d", style))
+	if style == 4 {
+		for _, st := range [][2]string{{"index.json", `{"schemaVersion":2,"manifests":[{"mediaType":"application/vnd.oci.image.manifest.v1+json","digest":"sha256:0000000000000000000000000000000000000000000000000000000000000000","size":7,"annotations":{"org.opencontainers.image.ref.name":"stale"}}]}`},
+			{"oci-layout", `{"imageLayoutVersion":"0.9.0"}`}} {
+			if err := tw.WriteHeader(&tar.Header{Typeflag: tar.TypeReg, Name: st[0], Mode: 0o644, Size: int64(len(st[1]))}); err != nil {
+				return err
+			}
+			if _, err := tw.Write([]byte(st[1])); err != nil {
+				return err
+			}
+		}
+	}
 	err = filepath.WalkDir(dir, func(p string, d fs.DirEntry, err error) error {
 		if err != nil {
 			return err
@@ -432,13 +453,28 @@ func writeTar(dir, out string) error {
 		if err != nil {
 			return err
 		}
+		if fi.IsDir() && (style == 2 || style == 3) {
+			return nil
+		}
 		hdr, err := tar.FileInfoHeader(fi, "")
 		if err != nil {
 			return err
 		}
 		hdr.Name = filepath.ToSlash(rel)
 		if len(hdr.Name) > 100 && fi.Mode().IsRegular() {
-			run.Count("tar:blob-name-over-100-bytes(PAX)")
+			run.Count("tar:blob-name-over-100-bytes")
+		}
+		switch style {
+		case 1:
+			hdr.Name = "./" + hdr.Name
+		case 2:
+			hdr.Format = tar.FormatPAX
+			hdr.PAXRecords = map[string]string{"VERIF.note": "x"}
+		case 3:
+			hdr.Format = tar.FormatGNU
+		case 5:
+			hdr.Name = "./" + strings.Replace(hdr.Name, "/", "//", 1)
+			hdr.Name = strings.Replace(hdr.Name, "//", "/.//", 1)
 		}
 		if fi.IsDir() {
 			hdr.Name += "/"
@@ -651,7 +687,7 @@ func (r *runner) checkpoint() string {
 		{"oci.New", func() (target, error) { return oci.New(r.dir) }},
 		{"NewFromFS(os.DirFS)", func() (target, error) { return oci.NewFromFS(ctx, os.DirFS(r.dir)) }},
 		{"NewFromTar", func() (target, error) {
-			if err := writeTar(r.dir, tarPath); err != nil {
+			if err := writeTar(r.dir, tarPath, len(r.h.Ops)%6); err != nil {
 				panic(err)
 			}
 			return oci.NewFromTar(ctx, tarPath)
